@@ -45,6 +45,16 @@ def run(rep, tier):
         r = json.loads(ln)
         if r["got"] != r["want"]:
             rep.violation("sign/known-answer/%s" % r["kat"], r)
+    # key documents (PKCS#8 v1 and the shape ring writes; the ring-compat feature is enabled in vh-api)
+    _, out, _ = vlib.run_harness(["c02keydocs"], pkg="vh-api")
+    nk = 0
+    for ln in out.splitlines():
+        r = json.loads(ln)
+        nk += 1
+        if r["got"] != r["want"]:
+            rep.violation("sign/known-answer/%s" % r["kat"], r)
+    if nk < 4:
+        raise vlib.ToolError("key-document known answers did not run (%d lines)" % nk)
     rep.cov["evaluations"] = len(cases)
     rep.cov["distinct_nontrivial"] = nontriv
     rep.cov["traces_validated_against_impl"] = len(cases)
